@@ -237,7 +237,8 @@ Definition h2_ok (m t : bytes) : bool :=
 Definition front_h2 : front :=
   {| f_uri := pq_parse; f_kind := fun _ k => k; f_sendable := h2_ok; f_headless := true |}.
 Definition front_h2raw : front :=
-  {| f_uri := pq_parse; f_kind := fun _ k => k;
+  {| f_uri := fun t => if utf8_valid t then pq_parse t else None;   (* HPACK: the whole [:path] value has to be UTF-8 ([BytesStr]) *)
+     f_kind := fun _ k => k;
      f_sendable := fun m t => wire_ok m && wire_ok t && negb (beq m (B "CONNECT")); f_headless := true |}.
 
 (** one request: the answer as the harness reports it ([fmt]: from the response, the Prepare log and the
